@@ -26,8 +26,8 @@ REGISTRATION = {
             "clause is also evaluated directly on the real cache (L2).",
     "design_ref": "DESIGN.md §5 C07, §6 F3/F22",
     "note": COMMON_NOTE + "Modelled, not verified: cell placement in kvcache.Causal (findStartLoc is modelled, "
-            "the layout after a defrag is taken from the real cache; C06 owns it), sliding-window caches "
-            "(CanResume is a free parameter of the theorems, SWA eviction is not modelled), multimodal inputs / "
+            "the layout after a defrag is taken from the real cache; C06 owns it; cell ranges are assumed to cover "
+            "the sequence), multimodal inputs / "
             "SameBatch (text inputs only), which FindStop variant the tree has (probed on the real function; C14 owns it), the HTTP layer (the slot-loading block of completion is replayed by "
             "the driver), sampling beyond greedy. runner/llamarunner/cache.go: only its pure functions "
             "(findLongestCacheSlot, findBestCacheSlot, countCommonPrefix, ShiftDiscard) are tied; its KV cache "
@@ -48,6 +48,9 @@ THEOREMS = [
     "OllamaVerif.C07.nextTok_perm",
     "OllamaVerif.C07.fresh_equiv_tokens",
     "OllamaVerif.C07.coherent_init",
+    "OllamaVerif.C07.canResume_sound",
+    "OllamaVerif.C07.load_window_present",
+    "OllamaVerif.C07.canResume_not_monotone",
     "OllamaVerif.C07.F3_pinned_reset_leaves_stale_entries",
     "OllamaVerif.Tie.C07.tree_reset_end_known",
     "OllamaVerif.Tie.C07.tree_reset_end_repaired",
@@ -113,7 +116,9 @@ def run(ctx):
     ctx.assumptions += [
         "cell placement after a defrag is taken from the real kvcache.Causal (C06 owns placement and the data "
         "movement of defrag); the theorems hold for every placement",
-        "Causal caches without a sliding window (CanResume is a free parameter of the theorems)",
+        "sliding-window caches: eviction, windowed mask, Init sizing and CanResume are modelled and tied (L1/L2); the "
+        "Coherent invariant theorems are for plain causal caches (any CanResume answer); for SWA the proved part is "
+        "canResume_sound + load_window_present (leave-one/CanResume ordering)",
         "text inputs only (SameBatch = 0, no multimodal hashes); greedy sampling",
         "llamarunner: pure functions only; llama.cpp's KV cache is modelled, not verified",
     ]
@@ -125,7 +130,7 @@ def run(ctx):
              "repeats, follow-up turns built from slot records, prompts longer than the context, generations "
              "that overflow it, stop strings, numPredict, loads with every slot busy) x configurations "
              "(parallel 1-4, ctx 4-64, batch 1-16, keep -1/0/k, single/multi-user policy, with/without "
-             "shiftFn); distinct = distinct history lines",
+             "shiftFn, plain causal cache or sliding window 1-8; exact repeats after k cached generated tokens); distinct = distinct history lines",
         explanation="Lean theorems about the model of InputCache + processBatch bookkeeping over a cell-level "
                     "Causal model; model tied to the code by exact comparison of slot records, sequences, cell "
                     "metadata and key rows after every event (L1) and by Coherent / exclusivity / prefix reuse / "
